@@ -111,3 +111,39 @@ Proof.
 Qed.
 Example dotnet_limits_positive : existsb (fun z => (0 <? z)%Z) dotnet_depth_limits = true.
 Proof. vm_compute. reflexivity. Qed.
+
+(* ------------------------------------------------------------------ elf.c module_load: the header a branch reads fits in the block *)
+(* a branch (class, data, demanded, cast, parser header size, parser bits, parser big-endian) is sound when what it demands of the
+   block covers both the type it casts the block to and the header type of the parser it calls, and the parser is the one for
+   that class and byte order *)
+Definition elf_branch_ok (b : Z * Z * Z * Z * Z * Z * Z) : bool :=
+  match b with (cls, dat, demanded, cast, phdr, bits, be) =>
+    ((cast <=? demanded) && (phdr <=? demanded) && (cast =? phdr) &&
+     (if cls =? ELF_CLASS_32 then bits =? 32 else if cls =? ELF_CLASS_64 then bits =? 64 else false) &&
+     (if dat =? ELF_DATA_2LSB then be =? 0 else if dat =? ELF_DATA_2MSB then be =? 1 else false))%Z
+  end.
+
+Lemma elf_header_guards_match_l : forall cls dat demanded cast phdr bits be block_size,
+  In (cls, dat, demanded, cast, phdr, bits, be) elf_header_branches ->
+  (demanded < block_size)%Z ->
+  (cast <= block_size /\ phdr <= block_size /\ cast = phdr /\
+   (cls = ELF_CLASS_32 -> bits = 32) /\ (cls = ELF_CLASS_64 -> bits = 64) /\
+   (dat = ELF_DATA_2LSB -> be = 0) /\ (dat = ELF_DATA_2MSB -> be = 1))%Z.
+Proof.
+  intros cls dat demanded cast phdr bits be block_size Hin Hsz.
+  assert (H : forallb elf_branch_ok elf_header_branches = true) by (vm_compute; reflexivity).
+  rewrite forallb_forall in H. specialize (H _ Hin). unfold elf_branch_ok in H.
+  repeat (apply andb_prop in H; destruct H as [H ?]).
+  repeat match goal with Hx : (_ <=? _)%Z = true |- _ => apply Z.leb_le in Hx | Hx : (_ =? _)%Z = true |- _ => apply Z.eqb_eq in Hx end.
+  repeat split; try lia.
+  - intros ->. rewrite Z.eqb_refl in *. match goal with Hx : (bits =? 32)%Z = true |- _ => apply Z.eqb_eq in Hx; exact Hx end.
+  - intros ->. change (ELF_CLASS_64 =? ELF_CLASS_32)%Z with false in *. rewrite Z.eqb_refl in *.
+    match goal with Hx : (bits =? 64)%Z = true |- _ => apply Z.eqb_eq in Hx; exact Hx end.
+  - intros ->. rewrite Z.eqb_refl in *. match goal with Hx : (be =? 0)%Z = true |- _ => apply Z.eqb_eq in Hx; exact Hx end.
+  - intros ->. change (ELF_DATA_2MSB =? ELF_DATA_2LSB)%Z with false in *. rewrite Z.eqb_refl in *.
+    match goal with Hx : (be =? 1)%Z = true |- _ => apply Z.eqb_eq in Hx; exact Hx end.
+Qed.
+
+Example elf_header_branches_all_four : length elf_header_branches = 4%nat /\
+  existsb (fun b => match b with (c, d, _, _, _, _, _) => ((c =? ELF_CLASS_64) && (d =? ELF_DATA_2MSB))%Z end) elf_header_branches = true.
+Proof. vm_compute. auto. Qed.
